@@ -1,5 +1,5 @@
 //@unit sm9_fp2
-//@serves C13 C20
+//@serves C09 C10 C13 C16 C17 C20
 //@source gm-sm9/src/fields/fp2.rs
 //@include-spec sm2_math
 //@include-spec sm9_math
